@@ -13,7 +13,7 @@ import (
 
 func init() {
 	families["C09"] = famC09
-	rules["C09"] = "abstract namespace-conformant documents (prefixes p/q/r/ns1, default namespace declared / re-declared / undeclared with xmlns=\"\", prefixed and unprefixed attributes, mixed content, comments, PIs, prolog and epilog) " +
+	rules["C09"] = "abstract namespace-conformant documents (prefixes p/q/r/ns1, default namespace declared / re-declared / undeclared with xmlns=\"\", the xml prefix declared explicitly, prefixed and unprefixed attributes, mixed content, comments, PIs, prolog and epilog) " +
 		"serialised with random choices (attribute order and quoting, text as plain text / CDATA sections / character and entity references in several pieces, CR LF line ends, self-closing tags, XML declaration, DOCTYPE, white space between prolog items, " +
 		"encodings UTF-8 / ISO-8859-1 / windows-1252 / US-ASCII); (a) xsel.ReadXml tree vs the XPath data model computed by the model from the ABSTRACT document, (b) vs the adapter model run on the token stream recorded from encoding/xml on the same bytes, " +
 		"(c) malformed texts (truncation, deleted/inserted bytes, mismatched end tags, undefined entities, invalid characters, invalid UTF-8): must be an error exactly when the recorded stream ends in a decoder error, never a tree with a nil error; " +
@@ -164,6 +164,10 @@ func (g *xmlGen) elem(scope map[string]string, depth int) *XItem {
 			sc[p] = u
 			it.Raw = append(it.Raw, XRaw{Decl: true, Prefix: p, URI: u})
 		}
+	}
+	if r.Chance(1, 10) {
+		// the xml prefix may be declared explicitly (with its fixed URI); it is in scope everywhere anyway
+		it.Raw = append(it.Raw, XRaw{Decl: true, Prefix: "xml", URI: xmlNS})
 	}
 	if r.Chance(1, 4) {
 		u := pick(r, xmlURIs)
